@@ -3,6 +3,7 @@ import einx._src.tracer as tracer
 import numpy as np
 from collections import defaultdict
 import itertools
+import keyword
 from einx._src.util import pytree
 
 
@@ -618,12 +619,18 @@ def compile(object, return_code=False):
     # Assign names to variables
     variableid_to_name = {}
 
+    # Generated names must be usable as identifiers (no Python keywords such as "as", "if", "in") and must not shadow a
+    # variable that is named by a hint (e.g. "np", "op")
+    reserved_names = {name for hinted_names in name_hints.values() for name in hinted_names}
+
     def names():
         chars = [chr(i) for i in range(ord("a"), ord("z") + 1)]
         length = 1
         while True:
             for name in itertools.product(chars, repeat=length):
-                yield "".join(name)
+                name = "".join(name)
+                if not keyword.iskeyword(name) and name not in reserved_names:
+                    yield name
             length += 1
 
     names = names()
